@@ -64,9 +64,9 @@ def defCore (o : Opts) (t : TypeDef) : List Tok :=
   | .input n _ _ fs =>
     .name (kw "input") :: .name n :: dirsToks (typeApps o t) ++ .punct '{' :: ivsToks o (sorted o.sortedFields (·.name) fs) ++ [.punct '}']
 
-/-- scalars the exporter never defines: the built-in ones, and `Any` in a federation export -/
-def isSystemScalar (o : Opts) : TypeDef → Bool
-  | .scalar n _ _ => systemScalars.contains n || (o.federation && federationScalars.contains n)
+/-- scalars the exporter never defines: the built-in ones -/
+def isSystemScalar (_o : Opts) : TypeDef → Bool
+  | .scalar n _ _ => systemScalars.contains n
   | _ => false
 
 def defToks (o : Opts) (t : TypeDef) : List Tok :=
